@@ -147,7 +147,7 @@ class KernelGroup(Group):
         prefix = "%s%s" % (self.name, '' if size is None else str(tuple(size)).replace(' ', ''))
         if mode == 'P':
             obls, stats = harness.function_obligations(c, mode, size)
-            jobs = harness.jobs_from(obls, prefix, timeout_ms=self.timeout_ms)
+            jobs = harness.jobs_from(obls, prefix, timeout_ms=self.timeout_ms, portfolio=True)
             for j in jobs:
                 j['subgoals'] = [j['name'].split(':', 1)[1]]
                 if j['kind'] == 'canary':
